@@ -707,8 +707,21 @@ class TagFlow:
         self.busy = set()
         self.memo = {}
         self.fail = None
+        self.env = {}
         from ..cfg import Dom
         self.dom = Dom(fn)
+
+    def fx(self, e):
+        """a fetched expression under the current unrolling environment"""
+        if not self.env:
+            return e
+        from .validators import subst as esubst
+        return _fold(esubst(e, self.env))
+
+    def set_env(self, env):
+        if env != self.env:
+            self.env = dict(env)
+            self.memo = {}
 
     # ---- multiply sites evaluated in place (their operands are already substituted)
     def site(self, e):
@@ -737,7 +750,7 @@ class TagFlow:
             out = None
             for (bb, j, rv, whole) in self.sym.defs.get(L, []):
                 if whole:
-                    e = self.sym.rvalue(rv, bb, (bb, j))
+                    e = self.fx(self.sym.rvalue(rv, bb, (bb, j)))
                     if e[0] == "rep":
                         v = self.vec(e[1], depth + 1, (bb, j))
                     elif e[0] == "agg" and e[1] == "array" and k < len(e[4]):
@@ -755,13 +768,22 @@ class TagFlow:
                         mp = {}
                     elif pr[0] == "i":
                         ix = strip(self.sym.local_at(pr[1], (bb, j)))
-                        rvars = _range_vars(self.sym, ix)
-                        if ix not in rvars or not (rvars[ix][0] <= k <= rvars[ix][1]):
+                        ixc = strip(self.fx(ix))
+                        if ixc[0] == "const":
+                            if ixc[1] != k:
+                                continue
+                            ix = None
+                        rvars = _range_vars(self.sym, ix) if ix is not None else {}
+                        if ix is None:
+                            mp = {}
+                        elif ix not in rvars or not (rvars[ix][0] <= k <= rvars[ix][1]):
                             return "?"
-                        mp = {ix: ("const", k, "usize")}
+                        else:
+                            mp = {ix: ("const", k, "usize")}
                     else:
                         return "?"
                     from .validators import subst as esubst
+                    mp.update(self.env)
                     e = _fold(esubst(self.sym.rvalue(rv, bb, (bb, j)), mp))
                     if _range_vars(self.sym, e):
                         return "?"
@@ -798,12 +820,15 @@ class TagFlow:
                 best = c
         if best is None:
             return "?"
-        return self.vec(self.sym.operand(best.args[1], (best.bb, "term")), depth + 1, (best.bb, "term"))
+        return self.vec(self.fx(self.sym.operand(best.args[1], (best.bb, "term"))), depth + 1, (best.bb, "term"))
 
     def vec(self, e, depth=0, at=None):
         r = self._vec(e, depth, at)
-        if r == "?" and self.fail is None:
-            self.fail = fmt(e)[:160] if isinstance(e, tuple) else repr(e)[:80]
+        if r == "?":
+            if self.fail is None:
+                self.fail = fmt(e)[:160] if isinstance(e, tuple) else repr(e)[:80]
+        else:
+            self.fail = None
         return r
 
     def _vec(self, e, depth=0, at=None):
@@ -836,7 +861,7 @@ class TagFlow:
                 for (bb, j, rv, whole) in defs:
                     if not whole:
                         return "?"
-                    v = self.vec(self.sym.rvalue(rv, bb, (bb, j)), depth + 1, (bb, j))
+                    v = self.vec(self.fx(self.sym.rvalue(rv, bb, (bb, j))), depth + 1, (bb, j))
                     if v is None:
                         continue
                     if v == "?":
@@ -859,9 +884,22 @@ class TagFlow:
                 return a[:4]
             if e[1] == "Shr" and isinstance(a, list) and c[0] == "const" and c[1] == 32 and len(a) >= 8:
                 return a[4:8]
+            if e[1] in ("Add", "Sub") and a is None and b != "?":
+                return b
+            if e[1] in ("Add", "Sub") and b is None and a != "?":
+                return a
             if e[1] in ("Add", "Sub") and isinstance(a, list) and isinstance(b, list):
                 u = frozenset().union(*a, *b)
                 return [u] * max(len(a), len(b))
+            if isinstance(a, list) and isinstance(b, list) and not any(a) and not any(b):
+                return [E] * max(len(a), len(b))        # arithmetic on plain numbers
+            if e[1] == "Mul":
+                # scalar tail: a component of a source pixel times a coefficient
+                for side in (e[2], e[3]):
+                    s_ = fmt(strip(side))
+                    m = re.match(r"^\(?get_unchecked(?:@bb\d+)?\((src_rows?(?:\[[^\]]*\])?), [^()]*\)\.0(?:\[(\d+)\])?(?: as \w+)?\)?$", s_)
+                    if m:
+                        return [frozenset([(m.group(1), int(m.group(2) or 0))])] * 4
             return "?"
         if k == "agg" and e[1] == "array":
             out = []
@@ -877,6 +915,16 @@ class TagFlow:
                 v = self.vec(_args(base)[0], depth + 1, at)
                 if isinstance(v, list) and ix[1] < len(v):
                     return [v[ix[1]]]
+                return "?"
+            if base[0] in ("call", "callat") and _name(base) == "map" and ix[0] == "const" and len(_args(base)) == 2:
+                arr = strip(_args(base)[0])
+                ty = self.fn.local_ty(arr[1]) if arr[0] == "local" else ""
+                m = re.match(r"^\[[iu](8|16|32|64); \d+\]$", ty or "")
+                v = self.vec(arr, depth + 1, at) if m else "?"
+                if isinstance(v, list):
+                    es = int(m.group(1)) // 8
+                    if (ix[1] + 1) * es <= len(v):
+                        return [frozenset().union(*v[ix[1] * es:(ix[1] + 1) * es])] * self.cs
                 return "?"
             if base[0] == "local" and ix[0] == "const":
                 ty = self.fn.local_ty(base[1]) or ""
@@ -924,6 +972,11 @@ class TagFlow:
                     for L in range(h, h + 16, fb):
                         out += [frozenset().union(*src[L:L + fb])] * (fb // 2)
             return out
+        if n == "_mm256_set_m128i" and len(a) == 2:
+            H, L = V(a[0]), V(a[1])
+            if isinstance(H, list) and isinstance(L, list) and len(H) == 16 and len(L) == 16:
+                return L + H
+            return "?"
         if re.match(r"^_mm256_extract[if]128_si256$", n) and cg:
             A = V(a[0])
             return A[16 * cg[0]:16 * cg[0] + 16] if isinstance(A, list) else A
@@ -985,6 +1038,26 @@ class TagFlow:
             return "?"
         if n in ("transmute", "clone", "into", "from"):
             return V(a[0]) if a else "?"
+        if n == "precision" and len(a) == 1:
+            return [E] * 8
+        if n == "sum" and len(a) == 1:
+            # sum over the elements of a scalar buffer
+            s_ = strip(a[0])
+            while s_[0] in ("call", "callat") and _name(s_) in ("iter", "into_iter", "deref", "as_slice") and _args(s_):
+                s_ = strip(_args(s_)[0])
+            if s_[0] == "local":
+                ty = self.fn.local_ty(s_[1]) or ""
+                m = re.match(r"^\[[iu](32|64); \d+\]$", ty)
+                if m:
+                    v = self.buffer(s_[1], here, depth)
+                    if isinstance(v, list):
+                        return [frozenset().union(*v)] * (int(m.group(1)) // 8)
+            return "?"
+        if re.match(r"^hsum_\w+$", n) and len(a) == 1:
+            A = V(a[0])
+            if isinstance(A, list):
+                return [frozenset().union(*A)] * 4
+            return "?"
         return "?"
 
 
@@ -1039,7 +1112,13 @@ def stores(rep, prog, rule):
         tf = TagFlow(prog, f, lp, cs, ps)
         work = []          # (dst expr, value expr, position, where)
         for dst, b, j, st in _store_statements(f, lp.sym):
-            work.append((dst, lp.sym.rvalue(st[2], b, (b, j)), (b, j), st[3]))
+            comp = None
+            for pr in st[1][2:]:
+                if isinstance(pr, list) and pr[0] == "ci":
+                    comp = ("const", pr[1], "usize")
+                elif isinstance(pr, list) and pr[0] == "i":
+                    comp = strip(lp.sym.local_at(pr[1], (b, j)))
+            work.append((dst, lp.sym.rvalue(st[2], b, (b, j)), (b, j), st[3], comp))
         # one level of store helpers: helper(value, dst_row, ..) whose body stores through
         # get_unchecked_mut(dst_row, ..)
         for c in f.calls():
@@ -1054,8 +1133,8 @@ def stores(rep, prog, rule):
             mp = {("param", i + 1, h.local_name(i + 1)): lp.sym.operand(a, (c.bb, "term"))
                   for i, a in enumerate(c.args)}
             for dst, b, j, st in hst:
-                work.append((esubst(dst, mp), esubst(hs.rvalue(st[2], b, (b, j)), mp), (c.bb, "term"), c.at))
-        for dst, val, at, where in work:
+                work.append((esubst(dst, mp), esubst(hs.rvalue(st[2], b, (b, j)), mp), (c.bb, "term"), c.at, None))
+        for dst, val, at, where, comp in work:
             if "dst_row" not in fmt(dst):
                 continue
             rv = _range_vars(lp.sym, dst)
@@ -1068,12 +1147,21 @@ def stores(rep, prog, rule):
                 mp = {a_: ("const", v_, "usize") for a_, v_ in cmb.items()}
                 d2 = _fold(esubst(dst, mp)) if mp else dst
                 v2 = _fold(esubst(val, mp)) if mp else val
+                c2 = strip(_fold(esubst(comp, mp))) if comp is not None else None
                 n += 1
                 rep.touch(f)
                 dname = fmt(d2)[:40]
                 key = "%s|store->%s" % (f.name, dname)
                 tf.fail = None
+                tf.set_env(mp)
+                if c2 is not None:
+                    key += ".%s" % (c2[1] if c2[0] == "const" else "?")
                 v = tf.vec(v2, 0, at)
+                if c2 is not None and isinstance(v, list) and c2[0] == "const" and len(v) >= cs:
+                    # a single component is stored: place it at its byte offset
+                    v = [None] * (c2[1] * cs) + list(v[:cs]) + [None] * (ps - (c2[1] + 1) * cs)
+                elif c2 is not None:
+                    v = "?"
                 if not isinstance(v, list) or len(v) < ps:
                     und += 1
                     rep.unk(rule, key, where, "the stored value is not followed to the accumulators (%s)"
@@ -1083,18 +1171,21 @@ def stores(rep, prog, rule):
                 bad = None
                 for bi in range(ps):
                     tags = v[bi]
-                    comp = bi // cs
+                    if tags is None:
+                        continue
+                    cwant = bi // cs
                     if not tags:
                         bad = "byte %d of the stored pixel receives no product" % bi
                     for (row, c_) in tags:
-                        if c_ != comp:
+                        if c_ != cwant:
                             bad = "byte %d (component %d) of the stored pixel is accumulated from " \
-                                  "component %d of the source" % (bi, comp, c_)
+                                  "component %d of the source" % (bi, cwant, c_)
                         elif row != want_row:
                             bad = "the pixel stored into %s is accumulated from %s" % (dname, row)
                 if bad:
                     rep.bad(rule, key + "|misplaced", where, "%s: %s" % (f.name, bad))
                 else:
-                    rep.ok(rule, key, where, "%d bytes from %s, components in order" % (ps, want_row))
+                    rep.ok(rule, key, where, "%d bytes from %s, components in order"
+                           % (len([x for x in v[:ps] if x is not None]), want_row))
     rep.floor(rule, "pixel stores of the horizontal x86 kernels", n, 20)
     rep.note("%s: %d of %d stores are followed to the accumulators" % (rule, n - und, n))
